@@ -2,6 +2,7 @@ import Seccomp.Model.Spec
 import Seccomp.Model.Oracle
 import Seccomp.Gen.Tables
 import Std.Data.HashMap
+import Seccomp.Driver.Loader
 /-!
 # Line-protocol driver of the executable model (`lean_exe model`)
 
@@ -291,6 +292,7 @@ def handle (A : Arches) (line : String) : String :=
     (match p.run rest with
      | some (r, []) => r
      | _ => "BAD-REQUEST")
+  | "H" :: rest => Driver.Loader.handle rest
   | _ => "BAD-REQUEST"
 
 partial def loop (A : Arches) (hin hout : IO.FS.Stream) : IO Unit := do
